@@ -12,7 +12,7 @@ from .filegen import FMT
 
 THEOREM_MODULES = ["PygacModel.Theorems.C19"]
 RULE = ("(a) gate: passes placed at every boundary of ALL 172 listed intervals (quick: 14 of 31 placements per interval) at offsets "
-        "-1 line / exactly / +1 line for start and end, inside, outside, and on other spacecraft of both families inside "
+        "-1 line / exactly / +1 line for start and end, inside, outside, spanning two neighbouring intervals, and on other spacecraft of both families inside "
         "the intervals: real is_tsm_affected() vs Lean gate on the regenerated tables vs the property's statement; (b) pixel "
         "criterion: random images with planted noise, NaN pixels / rows / blocks in one channel pair, 1..12 lines x 3..20 columns: real get_tsm_idx vs "
         "the Lean model (exact variance > 4) vs explicit NaN-ignoring 3x3 standard deviation, guard band |var - 4| < 1e-6; "
@@ -54,14 +54,27 @@ def gate_cases(ctx):
         for sid, ivs in tabs[fam].items():
             for k, (a, b) in enumerate(ivs):
                 todo.append((fam, sid, ms(a), ms(b)))      # every listed interval, in both tiers: a query is cheap
+    nxt = {}
+    for fam in ("pod", "klm"):
+        for sid, ivs in tabs[fam].items():
+            srt = sorted((ms(a), ms(b)) for a, b in ivs)
+            for (a1, b1), (a2, b2) in zip(srt, srt[1:]):
+                nxt[(fam, sid, a1, b1)] = (a2, b2)
     for fam, sid, a, b in todo:
         cands = []
+        if (fam, sid, a, b) in nxt:
+            # a pass that starts inside this interval and ends inside the NEXT one (both ends are inside a listed
+            # interval, the pass is not inside one): in both tiers, for every pair of neighbouring intervals
+            a2, b2 = nxt[(fam, sid, a, b)]
+            cands.append(((a + b) // 2, (a2 + b2) // 2))
+            cands.append((b, a2))
         for dur in (500, 60000, min(3600000, max(1000, (b - a) // 2)), rng.randint(1000, 6600000)):
             cands += [(a, a + dur), (a - 500, a + dur), (a + 500, a + dur + 500), (b - dur, b), (b - dur, b + 500),
                       (b - dur - 500, b - 500), ((a + b) // 2, (a + b) // 2 + dur)]
         cands += [(a, b), (a - 500, b + 500), (a - 86400000, a - 86400000 + 60000)]
         if not ctx.thorough:
-            cands = rng.sample(cands, 12) + [(a, b), (a, a + min(3600000, max(1000, (b - a) // 2)))]
+            span = [c for c in cands[:2] if (fam, sid, a, b) in nxt]
+            cands = rng.sample(cands, 12) + [(a, b), (a, a + min(3600000, max(1000, (b - a) // 2)))] + span
         for ts, te in cands:
             for s in [sid] + ([x for x in ids[fam] if x != sid][:2] if rng.random() < 0.3 else []):
                 r = readers[fam]()
